@@ -126,6 +126,15 @@ def payloads(body, root_qname, canary_path):
     P.append(('parameter-entity', '<!DOCTYPE %s [<!ENTITY %% p SYSTEM "file://%s"> %%p;]>%s' % (root, canary_path, body), 'reject'))
     P.append(('external-dtd', '<!DOCTYPE %s SYSTEM "http://canary.invalid/x.dtd">%s' % (root, body), 'noaccess'))
     P.append(('billion-laughs', '<!DOCTYPE %s [<!ENTITY a "%s"><!ENTITY b "&a;&a;&a;&a;"><!ENTITY e "&b;&b;&b;&b;">]>%s' % (root, ENT_MARK, with_ref), 'reject'))
+    # entity declarations that merely repeat HTML's named character references (what documents pasted from a web page carry)
+    nb = body[:i + 1] + '&nbsp;' + body[i + 1:]
+    P.append(('html-entity-nbsp', '<!DOCTYPE %s [<!ENTITY nbsp "&#160;">]>%s' % (root, nb), 'reject'))
+    P.append(('html-entity-copy-unused', '<!DOCTYPE %s [<!ENTITY copy "&#169;"><!ENTITY amp "&#38;#38;">]>%s' % (root, body), 'reject'))
+    if root.endswith('EntityDescriptor') and '</%s>' % root in body:
+        # a pointer to further metadata documents: following it is a network access caused by document content
+        j = body.rindex('</%s>' % root)
+        P.append(('additional-metadata-location', body[:j] + '<md:AdditionalMetadataLocation namespace="urn:vp:more">'
+                  'https://canary.invalid/more-metadata.xml</md:AdditionalMetadataLocation>' + body[j:], 'noaccess'))
     P.append(('entity-declared-unused', '<!DOCTYPE %s [<!ENTITY e "%s">]>%s' % (root, ENT_MARK, body), 'reject'))
     P.append(('xinclude', body[:i] + ' xmlns:xi="http://www.w3.org/2001/XInclude"' + body[i:i + 1] + '<xi:include href="file://%s" parse="text"/>' % canary_path + body[i + 1:], 'noaccess'))
     P.append(('stylesheet-pi', '<?xml-stylesheet type="text/xsl" href="file://%s"?>%s' % (canary_path, body), 'noaccess'))
@@ -272,6 +281,8 @@ def entry_points():
             self.body = body
 
         def send(self, url, *a, **k):
+            if url != 'https://md.example/fed':
+                env.Seam.external.append(('http-fetch-named-by-document', url))
             return _Resp(self.body)
 
     def md_remote_cert(d):
@@ -280,6 +291,13 @@ def entry_points():
         mds.http = _Http(d)
         mds.load('remote', url='https://md.example/fed', cert=world.crt('mdsigner'), node_name=node)
         return list(mds.keys()) or None
+    def md_remote_plain(d):
+        from saml2_tophat.mdstore import MetadataStore
+        mds = MetadataStore(ac_factory(), signer_sp.config)
+        mds.http = _Http(d)
+        mds.load('remote', url='https://md.example/fed')
+        return list(mds.keys()) or None
+    E.append(('MetadataStore.load-remote', md_remote_plain, mdx, 'md:EntityDescriptor'))
     E.append(('MetaDataFile.load+cert', md_file_cert, signed_md, 'md:EntityDescriptor'))
     E.append(('MetadataStore.load-remote+cert', md_remote_cert, signed_md, 'md:EntityDescriptor'))
     sp = world.make_sp(TMP[0], want_response_signed=False)
@@ -435,13 +453,26 @@ def seam_items():
                     '<xenc:CipherData><xenc:CipherReference URI="http://canary.invalid/cipher"/></xenc:CipherData></xenc:EncryptedData>', enc, flags=re.S)
     if enc_cr != enc:
         items.append(('cipher-reference', enc_cr))
+    # first decryption round answered with an entity-declaring document that still holds EncryptedData
+    items.append(('decrypt-output-declares-entity@round-1', enc))
     for label, doc in items:
         from vp import oracle
-        env.Seam.reset()
+        env.Seam.reset({'from:0:--decrypt': 'out-doctype-still-encrypted'} if label.startswith('decrypt-output') else None)
         env.Audit.start()
         obs = oracle.accept_response(sp, doc)
         ev = [e for e in env.Audit.stop() if e[0] != 'open']
         why = None
+        if label.startswith('decrypt-output'):
+            # only the first --decrypt call is answered that way; a later tool call must never see the declaration
+            ndec = [e for e in env.Seam.log if e['cmd'] == '--decrypt']
+            if not ndec:
+                why = 'vacuous:no-decrypt-call'
+            elif any(x[0] == 'entity-declaration' for x in env.Seam.external):
+                why = 'entity-declaring-document-handed-to-the-tool:%s' % ([x for x in env.Seam.external if x[0] == 'entity-declaration'][0],)
+            elif obs['accept']:
+                why = 'entity-declaring-tool-output-accepted'
+            out.append(('xmlsec1-seam', label, why))
+            continue
         if env.Seam.external and not all(x[0] == 'doctype' for x in env.Seam.external):
             why = 'tool-asked-to-dereference:%s' % ([x for x in env.Seam.external if x[0] != 'doctype'][0],)
         elif ev:
